@@ -24,7 +24,7 @@ def predicate_search11(ctx, build, lines, hout):
             elif op in ('to_bytes', 'to_bytes_le', 'ark.ser', 'hash'):
                 exp = int(t[1], 16).to_bytes(n8, 'little').hex()
             elif op in ('cmp', 'partial_cmp'):
-                a, b = int(t[1], 16), int(t[2], 16); exp = str((a > b) - (a < b))
+                a, b = int(t[1], 16), int(t[2], 16); exp = ('SOME ' if op == 'partial_cmp' else '') + str((a > b) - (a < b))
             elif op == 'ark.from_str':
                 s = l.split(None, 1)[1].strip().strip('"'); exp = 'OK %x' % (int(s) % m if s else 0)
             elif op == 'ark.deser':
